@@ -336,6 +336,42 @@ def repeat_after_error(sx, w, tag, pre_ndef, op, msg, who):
     return "write-ok"
 
 
+def nak_then_gone(sx, tt, later):
+    """a command is refused by the tag (NAK) and the tag has left the field
+    when the reader tries to activate it again; every later operation on the
+    same tag object ends as documented, never in an unrelated exception"""
+    w = make_world(sx, tt, 5)
+    tag = w.fresh_tag()
+    if tag is None:
+        sx.check(False, "activate-returned-none:" + tt)
+    w.sim.gone_after_nak = True
+    try:
+        tag.read(0xF0)                      # far behind the end of memory
+        sx.check(False, "read-behind-memory-did-not-fail:" + tt)
+    except nfc.tag.TagCommandError:
+        sx.reach("nak_then_gone")
+    out = []
+    for op in later:
+        try:
+            if op == "present":
+                out.append(tag.is_present is True)
+            elif op == "ndef":
+                out.append(tag.ndef is not None)
+            elif op == "read":
+                tag.read(4)
+                out.append(True)
+            elif op == "dump":
+                out.append(len(tag.dump()) > 0)
+            elif op == "write":
+                tag.write(5, b"abcd")
+                out.append(True)
+        except nfc.tag.TagCommandError:
+            out.append("TagCommandError")
+        if op in ("present", "ndef") and out[-1] is True:
+            sx.check(False, "tag-that-left-the-field-reported-%s:%s" % (op, tt))
+    return out
+
+
 def passive_ack_step(w, burst):
     """Type 2 SECTOR SELECT packet 2 is sent without retries by design"""
     return getattr(w.sim, 'sector_pending', False) or any(
@@ -400,6 +436,9 @@ def partitions(tier):
             lengths = [1, 2, 3] if tier == "quick" else [1, 2, 3, 4]
             parts.append(dict(name="%s:%s:%s" % (tt, op, kind), fn="op_faults",
                               params=dict(tt=tt, op=op, kinds=[kind], lengths=lengths)))
+    for later in (["present", "read"], ["ndef", "dump"], ["read", "write", "present"]):
+        parts.append(dict(name="tt2:nak-then-gone:" + "+".join(later), fn="nak_then_gone",
+                          params=dict(tt="tt2", later=later)))
     for tt in ("tt2", "tt1", "tt1dyn", "tt3", "tt4a", "tt4b"):
         for kind in ("timeout", "transmission", "protocol"):
             parts.append(dict(name="%s:activate:%s" % (tt, kind), fn="activation_faults",
